@@ -219,7 +219,7 @@ impl Stage for TableSeq {
         })
     }
     fn rule(&self) -> String {
-        "sequences of 20..300(400) operations on the real RoutingTable under a paused clock: offers as responder (good) / hearsay (questionable) with ids built relative to the local id (flip bit b, b absolute 0..159 or relative to the current last bucket; equal to the local id; all-zero filler id; last-bit neighbours), responses naming another node (RoutingTable::add_nodes, as the handler calls it), repeats of existing slots, id/address clashes, query-sent / query-received events, time steps (1 s, ~30 s, ~15 min, 1 h); router set fixed before the first offer. After every op: shape invariants + transition rules. Non-trivial: reached >=3 buckets and contained an offer into a bucket holding good, questionable and free/bad slots at once, or a split of such a bucket".into()
+        "sequences of 20..300(400) operations on the real RoutingTable under a paused clock: offers as responder (good) / hearsay (questionable) with ids built relative to the local id (flip bit b, b absolute 0..159 or relative to the current last bucket; equal to the local id; all-zero filler id; last-bit neighbours), responses naming another node (RoutingTable::add_nodes, as the handler calls it), repeats of existing slots, id/address clashes, query-sent / query-received events, time steps (1 s, ~30 s, ~15 min, 1 h, 2^k ms +/- 5 s for k = 24..40); router set fixed before the first offer. After every op: shape invariants + transition rules. Non-trivial: reached >=3 buckets and contained an offer into a bucket holding good, questionable and free/bad slots at once, or a split of such a bucket".into()
     }
     fn sample(&self, c: &TableCase) -> serde_json::Value {
         serde_json::json!({"local": crate::bcodec::hex(&c.local), "routers": c.routers.len(), "n_ops": c.ops.len(), "first_ops": c.ops.iter().take(6).map(|o| format!("{o:?}")).collect::<Vec<_>>()})
